@@ -52,37 +52,7 @@ def check(ctx):
     ctx.require(len(singles) >= 1, "R-FLOW", "canon-merge:single-identity", "a met canon state is wrapped unchanged into MergerCanonResult::CanonResult",
                 "try_merge_next_state_as_canon no longer wraps the met state into MergerCanonResult::CanonResult")
 
-    # five mergers: one-sided + lock-step
-    for name in mergetab.MERGERS:
-        f, kind, rows, lock = mergetab.next_state_table(F, name)
-        ctx.floor("R-TABLE", "rows of try_merge_next_state_as_" + name, len(rows), 4)
-        for row, want_prev, want_cur in (((kind, "None"), True, False), (("None", kind), False, True)):
-            outs = rows.get(row, set())
-            good = [o for o in outs if o[0] in ("Ok", "call:prepare_merge_result", "call:prepare_single_canon_result", "?") or str(o[0]).startswith("call:")]
-            ok = bool(outs) and all(o[0] != "Err" for o in outs) and all(o[1] == want_prev and o[2] == want_cur for o in outs)
-            ctx.require(ok, "R-TABLE", "one-sided:%s:%s/%s" % (name, row[0], row[1]),
-                        "(%s,%s) -> result built from the %s state only, no error" % (row[0], row[1], "previous" if want_prev else "current"),
-                        "try_merge_next_state_as_%s row (%s,%s) is %s: the only present state is not what is returned" % (name, row[0], row[1], sorted(map(str, outs))),
-                        sample={"merger": name, "row": list(row), "outcomes": sorted(map(str, outs))})
-        outs = rows.get(("None", "None"), set())
-        ctx.require(bool(outs) and all(o[0] != "Err" and not o[1] and not o[2] for o in outs), "R-TABLE", "one-sided:%s:None/None" % name,
-                    "(None,None) -> not-met value, no error", "try_merge_next_state_as_%s row (None,None) is %s" % (name, sorted(map(str, outs))))
-        outs = rows.get((kind, kind), set())
-        okb = bool(outs) and all(o[1] and o[2] for o in outs if o[0] != "Err") if name in ("par", "fold", "call", "canon") else bool(outs)
-        if name == "ap":
-            okb = bool(outs) and all(o[1] and not o[2] for o in outs)   # (Ap,Ap) keeps the previous ap (same content by construction)
-        ctx.require(okb, "R-TABLE", "two-sided:%s" % name, "(%s,%s) -> result uses %s" % (kind, kind, "both states" if name != "ap" else "the previous state"),
-                    "try_merge_next_state_as_%s row (%s,%s) is %s" % (name, kind, kind, sorted(map(str, outs))))
-        # mismatching kinds -> error
-        bad = [r for r in rows if r[0] not in ("None", kind) or r[1] not in ("None", kind)]
-        for r in bad:
-            ctx.require(all(o[0] == "Err" for o in rows[r]), "R-TABLE", "kind-mismatch:%s:%s/%s" % (name, r[0], r[1]), "incompatible kinds -> error",
-                        "try_merge_next_state_as_%s accepts states (%s,%s)" % (name, r[0], r[1]))
-        # lock-step
-        okl = bool(lock) and all(ns == ["current", "prev"] for _, ns in lock)
-        ctx.require(okl, "R-MUST", "lock-step:" + name, "next_state called exactly once on each slider on all %d paths" % len(lock),
-                    "try_merge_next_state_as_%s does not advance both sliders exactly once on every path: %s"
-                    % (name, sorted({str(ns) for _, ns in lock if ns != ["current", "prev"]})))
+    mergetab.mergers_rows_and_lockstep(ctx, F)
     # call: two-sided uses merge_call_results, one-sided schemes
     f, kind, rows, lock = mergetab.next_state_table(F, "call")
     ctx.require(all("merge_call_results" in o[3] for o in rows.get(("Call", "Call"), set()) if o[0] != "Err") and rows.get(("Call", "Call")),
